@@ -832,8 +832,13 @@ def r21_streq(src, log):
     edits = []
     for k, i in enumerate(s):
         t0 = toks[i]
-        if t0.kind == "str" and t0.text.startswith('"') and k >= 3 and toks[s[k - 1]].text == "=" and toks[s[k - 2]].text == "=" \
-                and toks[s[k - 3]].text not in "=!<>":
+        neg = False
+        is_eq = t0.kind == "str" and t0.text.startswith('"') and k >= 3 and toks[s[k - 1]].text == "=" and toks[s[k - 2]].text == "=" \
+            and toks[s[k - 3]].text not in "=!<>"
+        is_ne = t0.kind == "str" and t0.text.startswith('"') and k >= 3 and toks[s[k - 1]].text == "=" and toks[s[k - 2]].text == "!" \
+            and toks[s[k - 3]].text not in "=!<>"
+        if is_eq or is_ne:
+            neg = is_ne
             j = k - 3
             while j >= 0:
                 tj = toks[s[j]]
@@ -847,7 +852,7 @@ def r21_streq(src, log):
                 j -= 1
             a = toks[s[j + 1]].start
             lhs = src[a:toks[s[k - 2]].start].strip()
-            edits.append((a, t0.end, "str_eq(&(%s), %s)" % (lhs, t0.text)))
+            edits.append((a, t0.end, "%sstr_eq(&(%s), %s)" % ("!" if neg else "", lhs, t0.text)))
     log["R21"] = log.get("R21", 0) + len(edits)
     return _replace(src, edits)
 
